@@ -50,9 +50,9 @@ func Profiles() map[string]Profile {
 		ReadSnaps: true, RangeKeys: 1, MaxSnaps: 3})
 	add(Profile{Name: "C04", W: map[string]int{"write": 40, "ingest": 6, "excise": 3, "maint": 16, "viewiter": 12, "viewop": 20, "close": 5, "clone": 5, "batchview": 8, "windowscan": 4},
 		ReadIters: true, RangeKeys: 1, MaxIters: 3, IterCls: "view"})
-	add(Profile{Name: "C05", W: map[string]int{"write": 25, "maint": 6, "batchnew": 10, "batchop": 35, "batchget": 20, "batchscan": 8, "batchiter": 8, "batchend": 8, "leak": 10, "batchview": 8},
+	add(Profile{Name: "C05", W: map[string]int{"write": 25, "maint": 6, "batchnew": 10, "batchop": 35, "batchget": 20, "batchscan": 8, "batchiter": 8, "batchend": 8, "leak": 10, "batchview": 8, "pausedseek": 4},
 		RangeKeys: 1, LatestCls: "batchleak", MaxIters: 2, Limits: true})
-	add(Profile{Name: "C02", W: map[string]int{"write": 25, "maint": 6, "positer": 10, "posop": 70, "close": 4, "setbounds": 6, "setopts": 3, "npsweep": 5, "straddle": 4, "windowscan": 6},
+	add(Profile{Name: "C02", W: map[string]int{"write": 25, "maint": 6, "positer": 10, "posop": 70, "close": 4, "setbounds": 6, "setopts": 3, "npsweep": 5, "straddle": 4, "windowscan": 6, "pausedseek": 6},
 		RangeKeys: 1, MaxIters: 2, IterCls: "pos", Masks: true, Limits: true})
 	add(Profile{Name: "C08", W: map[string]int{"write": 35, "ingest": 8, "maint": 12, "positer": 10, "posop": 50, "close": 4, "scan": 8},
 		RangeKeys: 5, MaxIters: 2, IterCls: "rk", ScanLatest: true, LatestCls: "rk"})
@@ -94,6 +94,7 @@ type Gen struct {
 	batchOps   map[int][]Ev
 	iters      []*genIter
 	lastValid  bool
+	lastSt     string // validity state reported by the last *WithLimit op
 	pinHook    func(h int, before []int) // C39: called after an iterator was created, with the physical files seen just before
 	noMerge    bool // no MERGE / SINGLEDEL (collapsing ScanInternal does not support them)
 	snapTaint  map[int]bool
@@ -954,6 +955,8 @@ func (g *Gen) Step() {
 		g.actExtIngest()
 	case "extmask":
 		g.actExtMask()
+	case "pausedseek":
+		g.actPausedSeek()
 	case "ingestpair":
 		g.actIngestPair()
 	case "checkpointinner":
